@@ -86,7 +86,11 @@ def _cell_job(job):
     os.makedirs(wd, exist_ok=True)
     seq, idx = tripeptide(res["pos"], res["group"] or "ALA")
     start = job.get("start", 1)
-    open(os.path.join(wd, "in.pdb"), "w").write(gen.pdb_text([gen.peptide(seq, start=start)]))
+    if job.get("nochain"):
+        # no chain identifiers, no TER record, one water kept in the structure
+        open(os.path.join(wd, "in.pdb"), "w").write(gen.pdb_text([gen.peptide(seq, start=start, chain="") + gen.water((6, 14, 4), chain="", resseq=101)], ter=False))
+    else:
+        open(os.path.join(wd, "in.pdb"), "w").write(gen.pdb_text([gen.peptide(seq, start=start)]))
     num = idx + start
     rows = []
     if res["pos"] == "N":
@@ -266,6 +270,8 @@ def run(ctx):
         other = "PARSE" if rr_ff(j) != "parse" else "AMBER"
         twins.append(dict(j, ffout=other, variant=f"--ffout={other}"))
         twins.append(dict(j, start=999, variant="residue numbers 999-1001"))
+        if (n + ctx.seed) % 2 == 0 or not ctx.quick:
+            twins.append(dict(j, nochain=True, variant="no chain ids, no TER, one water"))
     jobs += twins
     obs = core.pmap(_cell_job, jobs, chunksize=4)
     traces = []
